@@ -335,8 +335,8 @@ Definition scalar_rt (a : aty) (v : value) : outcome :=
   | ADuration _, VInt _ | ADuration _, VFloat _ => Unmodelled
   | ADuration _, _ => Reject
   | ADecimal _ _, _ => Unmodelled
-  | AStruct, VDict _ | AStruct, VTuple _ | AStruct, VList _ => Unmodelled      (* dict / tuple -> struct: not modelled *)
-  | AStruct, _ => Reject                                                       (* bytes, dataclass objects, scalars *)
+  | AStruct, VBytes (_ :: _) | AStruct, VData _ => Reject                        (* serialized bytes / a dataclass object for a struct column *)
+  | AStruct, _ => Unmodelled                                                   (* dict / tuple / empty sequences -> struct: not modelled *)
   | AList _, _ | AMap _ _, _ => Unmodelled                                    (* handled by arrow_rt *)
   end.
 
